@@ -258,3 +258,38 @@ Proof.
     rewrite E. reflexivity.
   - cbn [skeleton walk_gen]. rewrite IH. reflexivity.
 Qed.
+
+Lemma concat_go_in lk : forall (items : list (list stat)) index k l s,
+  nth_error items k = Some l -> In s l ->
+  In (bump 1 (name_len lk (index + N.of_nat k)) (nbits_for (lk_len lk - 1)) s) (concat_go lk items index).
+Proof.
+  induction items as [|l0 r IH]; intros index k l s E Hin; [destruct k; discriminate|].
+  destruct k as [|k]; simpl in E.
+  - injection E as ->. cbn [concat_go]. apply in_or_app. left. rewrite N.add_0_r. apply in_map. exact Hin.
+  - cbn [concat_go]. apply in_or_app. right.
+    replace (index + N.of_nat (S k))%N with (index + 1 + N.of_nat k)%N by lia. eapply IH; eauto.
+Qed.
+
+
+(* every child contributes (1 + depth, own name + length, own bits + bits) to the maxima of its parent *)
+Lemma child_meta_het h lk cs k a t' : wf (NHet h lk cs) -> nth_error cs k = Some (a, t') ->
+  (1 + m_depth (metadata t') <= m_depth (metadata (NHet h lk cs))) /\
+  (name_len lk (N.of_nat k) + m_length (metadata t') <= m_length (metadata (NHet h lk cs))) /\
+  (nbits_for (lk_len lk - 1) + m_bits (metadata t') <= m_bits (metadata (NHet h lk cs))).
+Proof.
+  intros Hw En. pose proof (meta_exact _ Hw) as [_ (_ & Hd & Hl & Hb)].
+  assert (Hwt : wf t') by (destruct Hw as (_ & _ & Hall); eapply wf_all_nth; eauto).
+  pose proof (meta_exact _ Hwt) as [Hne (_ & Hd' & Hl' & Hb')].
+  rewrite Hd, Hd', Hl, Hl', Hb, Hb'.
+  assert (G : forall (pr : stat -> N) (own : N), (forall s, pr (bump 1 (name_len lk (0 + N.of_nat k)) (nbits_for (lk_len lk - 1)) s) = own + pr s) ->
+    own + nmax (map pr (stats t')) <= nmax (map pr (stats (NHet h lk cs)))).
+  { intros pr own Hpr.
+    assert (Hm : map pr (stats t') <> []) by (destruct (stats t'); [congruence|discriminate]).
+    pose proof (nmax_in _ Hm) as Hin. apply in_map_iff in Hin. destruct Hin as [s [Hs Hins]].
+    rewrite <- Hs, <- Hpr. apply nmax_le. cbn [stats]. apply in_map_iff.
+    eexists. split; [reflexivity|]. eapply concat_go_in; [|exact Hins]. rewrite nth_error_map, En. reflexivity. }
+  repeat split.
+  - apply G. intros [[d l] b]. reflexivity.
+  - apply (G sl). intros [[d l] b]. reflexivity.
+  - apply (G sb). intros [[d l] b]. reflexivity.
+Qed.
